@@ -216,6 +216,9 @@ class ElfWriter:
         # Write sections contained in images:
         for image in self.obj.images:
             self.align_to(self.page_size)
+            # A loadable segment must have congruent p_offset and p_vaddr,
+            # modulo the page size, otherwise it cannot be mmap-ed:
+            self.f.write(bytes(image.address % self.page_size))
             file_offset = self.f.tell()
 
             for section in image.sections:
